@@ -423,8 +423,8 @@ fn check_colors(ctx: &mut Ctx, edges: &[(String, String)], k: usize) {
         false
     }
     let mut nodes = 0u64;
-    let mut colourable = search(0, n, k, &mut vec![], &|j, cj, i, ci| !adj_in_m[i][j] || cj != ci, &mut nodes);
-    let mut covering_clique = search(0, n, k, &mut vec![], &|j, cj, i, ci| out_set.contains(&(pick_names[j][cj].as_str(), pick_names[i][ci].as_str())), &mut nodes);
+    let colourable = search(0, n, k, &mut vec![], &|j, cj, i, ci| !adj_in_m[i][j] || cj != ci, &mut nodes);
+    let covering_clique = search(0, n, k, &mut vec![], &|j, cj, i, ci| out_set.contains(&(pick_names[j][cj].as_str(), pick_names[i][ci].as_str())), &mut nodes);
     ctx.count("colouring_search_nodes", nodes);
     if colourable != covering_clique {
         ctx.violation(key, format!("the input graph is {}{k}-colourable but the output {} a clique choosing one (vertex, colour) per input vertex", if colourable { "" } else { "not " }, if covering_clique { "has" } else { "has no" }), convert_case(edges, true, Some(k)));
